@@ -1,20 +1,22 @@
--- PINNED by bin/pin_tables: copy of Gen/Parse.lean as generated from /repo at 503476b — regenerate, do not edit
+-- PINNED by bin/pin_tables: copy of Gen/Parse.lean as generated from /repo at 8198207 — regenerate, do not edit
 namespace Ggql.Pinned
 def sdlEmptyTokenSpins : Bool := false
 def exeVarTypeOptional : Bool := false
 def fieldPosAfterLookahead : Bool := false
 def opErrPosAfterLookahead : Bool := false
+def fragCondPosAfterToken : Bool := false
+def varDefPosAfterToken : Bool := false
 def parserSkeleton : List (String × String) := [
   ("ParseValue", "aee9fa3d28d3"),
   ("ParseValueString", "03432091c79e"),
   ("exeParser.readField", "a34d4efa5ee5"),
   ("exeParser.readFragRef", "9c97fce48d73"),
   ("exeParser.readFragment", "9888b86ba516"),
-  ("exeParser.readFragmentDef", "3281aee512e0"),
+  ("exeParser.readFragmentDef", "ac7947967256"),
   ("exeParser.readInline", "c937b7931829"),
   ("exeParser.readOp", "3f2c7946f8fe"),
   ("exeParser.readSelectionSet", "633413140d11"),
-  ("exeParser.readVarDef", "d6b69b1b20cb"),
+  ("exeParser.readVarDef", "c683f216d2b6"),
   ("exeParser.readVarDefs", "007f8ff5b513"),
   ("parseExe", "b2fc5513a9c5"),
   ("parseSDL", "5c0f8828856d"),
